@@ -318,7 +318,58 @@ func R21() Rule {
 				}
 			}
 		}
+		// the removal happens in the same critical section of the registry as the map delete:
+		// otherwise a CreateTable of the same name can slip in and have its fresh metadata removed
+		la := Locks(P)
+		okLocked := false
+		for _, ci := range core.AllCalls(del) {
+			if ci.Method != nil && ci.Method.Name() == "DeleteTableMeta" {
+				okLocked = la.AbsAt(ci.Instr)["bttest.server.mu"] == mW
+			}
+		}
+		if okD {
+			c.Check(okLocked, "R21", "D3/metadata-removed-under-registry-lock", del.Pos(), "DeleteTableMeta runs while server.mu is held (same critical section as the registry delete)", "D3: the metadata removal runs after server.mu was released: a CreateTable of the same name admitted in between gets its fresh metadata file removed and is gone after a restart")
+		}
 		c.Check(okD && okImpl, "R21", "D3/DeleteTable-removes-metadata", del.Pos(), "DeleteTable asks the storage to forget the table; the disk storage removes <name>.table.proto", "D3: DeleteTable reaches no storage-level removal of the table's metadata: a deleted table reappears after restart")
+
+		// ---- D4b GetTables hands out one freshly allocated message per metadata file
+		gt := P.MustFunc(core.PkgBttest, "LeveldbDiskStorage.GetTables")
+		okFresh, nApp := true, 0
+		for _, f := range core.Family(gt) {
+			for _, b := range f.Blocks {
+				for _, in := range b.Instrs {
+					call, ok := in.(*ssa.Call)
+					if !ok {
+						continue
+					}
+					if bi, ok := call.Call.Value.(*ssa.Builtin); !ok || bi.Name() != "append" || len(call.Call.Args) < 2 {
+						continue
+					}
+					sl, ok := call.Call.Args[1].(*ssa.Slice)
+					if !ok {
+						continue
+					}
+					arr, ok := sl.X.(*ssa.Alloc)
+					if !ok {
+						continue
+					}
+					for _, r := range core.Referrers(arr) {
+						if ia, ok := r.(*ssa.IndexAddr); ok {
+							for _, rr := range core.Referrers(ia) {
+								if st, ok := rr.(*ssa.Store); ok && core.TypeIs(st.Val.Type(), "cloud.google.com/go/bigtable/admin/apiv2/adminpb", "Table") {
+									nApp++
+									a, isAlloc := core.Resolve(st.Val).(*ssa.Alloc)
+									if !isAlloc || a.Parent() != f {
+										okFresh = false
+									}
+								}
+							}
+						}
+					}
+				}
+			}
+		}
+		c.Check(okFresh && nApp > 0, "R21", "D4/GetTables-distinct-messages", gt.Pos(), "each table appended to the result is a message allocated in that very callback invocation", "D4: GetTables appends a message that is shared between callback invocations (allocated outside the per-file callback): after a restart every entry aliases the last table read")
 
 		// ---- D4 start-up wiring
 		ns := P.MustFunc(core.PkgBttest, "NewServerWithOptions")
